@@ -297,14 +297,14 @@ def build_prog(name, td, want=("PartialEq", "PartialOrd", "Ord", "Hash"), laws=F
                 proofs.append("    #[kani::proof]\n    pub fn %s() { let mut s = KaniSrc; let x = <%s as Mk>::mk(&mut s); let y = <%s as Mk>::mk(&mut s); let r = w_%s(&x, &y); assert!(r == %s, \"postcondition of w_%s\"); kani::cover!(true); }" % (h, T, T, h, ref.replace("(x, y)", "(&x, &y)"), h))
             else:
                 proofs.append("    #[kani::proof_for_contract(w_%s)]\n    pub fn %s() { let mut s = KaniSrc; let x = <%s as Mk>::mk(&mut s); let y = <%s as Mk>::mk(&mut s); let _r = w_%s(&x, &y); kani::cover!(true); }" % (h, h, T, T, h))
-            replays.append('        "%s" => { let x = <%s as Mk>::mk(&mut s); let y = <%s as Mk>::mk(&mut s); format!("x={:?} y={:?} derived %s = {:?}, documented rule = {:?}", x, y, w_%s(&x, &y), %s) }' % (h, T, T, h, h, ref.replace("(x, y)", "(&x, &y)")))
+            replays.append('        "%s" => { let x = <%s as Mk>::mk(&mut s); let y = <%s as Mk>::mk(&mut s); let d = w_%s(&x, &y); let r = %s; (d == r, format!("x={:?} y={:?} derived %s = {:?}, documented rule = {:?}", x, y, d, r)) }' % (h, T, T, h, ref.replace("(x, y)", "(&x, &y)"), h))
             harnesses.append(h)
     if "Hash" in td.derived and "Hash" in want:
         parts.append(ref_feed(td))
         wrappers.append("pub fn ref_rec(x: &%s) -> Rec { let mut h = Rec::new(); ref_feed(x, &mut h); h }" % T)
         wrappers.append("#[cfg_attr(kani, kani::ensures(|r: &Rec| *r == ref_rec(x)))]\npub fn w_feed(x: &%s) -> Rec { let mut h = Rec::new(); Hash::hash(x, &mut h); h }" % T)
         proofs.append("    #[kani::proof_for_contract(w_feed)]\n    pub fn feed() { let mut s = KaniSrc; let x = <%s as Mk>::mk(&mut s); let _r = w_feed(&x); kani::cover!(true); }" % T)
-        replays.append('        "feed" => { let x = <%s as Mk>::mk(&mut s); let d = w_feed(&x); let r = ref_rec(&x); format!("x={:?} derived feed = {:?} (len {}), documented feed = {:?} (len {})", x, &d.buf[..d.len.min(32)], d.len, &r.buf[..r.len.min(32)], r.len) }' % T)
+        replays.append('        "feed" => { let x = <%s as Mk>::mk(&mut s); let d = w_feed(&x); let r = ref_rec(&x); (d == r, format!("x={:?} derived feed = {:?} (len {}), documented feed = {:?} (len {})", x, &d.buf[..d.len.min(32)], d.len, &r.buf[..r.len.min(32)], r.len)) }' % T)
         harnesses.append("feed")
     if laws:
         lw, lp, lr, lh = law_harnesses(td)
@@ -318,7 +318,7 @@ def build_prog(name, td, want=("PartialEq", "PartialOrd", "Ord", "Hash"), laws=F
     parts.append(man)
     parts.append("\n".join(wrappers) + "\n")
     parts.append("#[cfg(kani)]\npub mod proofs {\n    use super::*;\n%s\n}\n" % "\n".join(proofs))
-    parts.append("pub fn replay(h: &str, b: &[u8]) -> String {\n    let mut s = VecSrc { v: b.to_vec(), i: 0 };\n    match h {\n%s\n        _ => String::from(\"unknown harness\"),\n    }\n}\n" % "\n".join(replays))
+    parts.append("pub fn replay(h: &str, b: &[u8]) -> (bool, String) {\n    let mut s = VecSrc { v: b.to_vec(), i: 0 };\n    match h {\n%s\n        _ => (true, String::from(\"unknown harness\")),\n    }\n}\n" % "\n".join(replays))
     return Prog(name, "\n".join(parts), harnesses, {"describe": td.describe()})
 
 
@@ -329,12 +329,12 @@ def law_harnesses(td):
     w, p, r, h = [], [], [], []
     def add(name, nvals, cond, text):
         args = ", ".join("%s: &%s" % (v, T) for v in "xyz"[:nvals])
-        w.append("#[cfg_attr(kani, kani::ensures(|r: &bool| *r))]\npub fn law_%s(%s) -> bool { %s }" % (name, args, cond))
+        w.append("#[cfg_attr(kani, kani::ensures(|r: &bool| *r))]\npub fn lw_%s(%s) -> bool { %s }" % (name, args, cond))
         mk = " ".join("let %s = <%s as Mk>::mk(&mut s);" % (v, T) for v in "xyz"[:nvals])
         call = ", ".join("&" + v for v in "xyz"[:nvals])
-        p.append("    #[kani::proof_for_contract(law_%s)]\n    pub fn law_%s() { let mut s = KaniSrc; %s let _r = law_%s(%s); kani::cover!(true); }" % (name, name, mk, name, call))
+        p.append("    #[kani::proof_for_contract(lw_%s)]\n    pub fn law_%s() { let mut s = KaniSrc; %s let _r = lw_%s(%s); kani::cover!(true); }" % (name, name, mk, name, call))
         fmtv = " ".join("%s={:?}" % v for v in "xyz"[:nvals])
-        r.append('        "law_%s" => { %s format!("%s law `%s` holds = {:?}", %s, law_%s(%s)) }' % (name, mk, fmtv, text, ", ".join("xyz"[:nvals]), name, call))
+        r.append('        "law_%s" => { %s let ok = lw_%s(%s); (ok, format!("%s law `%s` holds = {:?}", %s, ok)) }' % (name, mk, name, call, fmtv, text, ", ".join("xyz"[:nvals])))
         h.append("law_" + name)
     if "PartialEq" in D and "PartialOrd" in D:
         add("eq_pcmp", 2, "(x == y) == (x.partial_cmp(y) == Some(Ordering::Equal))", "a == b iff partial_cmp == Some(Equal)")
